@@ -20,8 +20,8 @@
 (***************************************************************************)
 EXTENDS Shadows, Json
 CONSTANTS NQ, MaxLen, Hams
-VARIABLES circ, psi, ph, ri, accRho, accEv, qtab, ref
-vars == <<circ, psi, ph, ri, accRho, accEv, qtab, ref>>
+VARIABLES gcirc, gpsi, gph, gri, accRho, accEv, qtab, gref
+vars == <<gcirc, gpsi, gph, gri, accRho, accEv, qtab, gref>>
 D  == 2^NQ
 NR == 3^NQ
 NW == 4^NQ
@@ -34,22 +34,21 @@ Alphabet == {G(g, <<w>>) : g \in {"Hadamard", "S", "T"}, w \in 1..NQ}
 \* state-independent tables (constant level: evaluated once)
 SnapTab == TLCEval([r1 \in 1..NR |-> TLCEval([b1 \in 1..D |-> Snapshot(RecOf(r1 - 1, NQ), BitsOf(b1 - 1, NQ))])])
 WordTab == TLCEval([w1 \in 1..NW |-> PauliM(WordOf(w1 - 1, NQ))])
-EstTab  == Bind2(SnapTab, WordTab, LAMBDA st, wt :
-   TLCEval([r1 \in 1..NR |-> TLCEval([b1 \in 1..D |-> TLCEval([w1 \in 1..NW |-> TrProd(st[r1][b1], wt[w1])])])]))
+EstTab  == TLCEval([r1 \in 1..NR |-> TLCEval([b1 \in 1..D |-> TLCEval([w1 \in 1..NW |-> TrProd(SnapTab[r1][b1], WordTab[w1])])])])
 NoEv == TLCEval([w1 \in 1..NW |-> SZero])
 
-Init == /\ circ = <<>> /\ psi = BasisCol(D, 0) /\ ph = "build" /\ ri = 0
-        /\ accRho = ZeroM(D) /\ accEv = NoEv /\ qtab = <<>> /\ ref = <<>>
+Init == /\ gcirc = <<>> /\ gpsi = BasisCol(D, 0) /\ gph = "build" /\ gri = 0
+        /\ accRho = ZeroM(D) /\ accEv = NoEv /\ qtab = <<>> /\ gref = <<>>
 
-Extend == /\ ph = "build" /\ Len(circ) < MaxLen
-          /\ \E g \in Alphabet : /\ circ' = Append(circ, g)
-                                 /\ psi' = ApplyGate(psi, GateM(g), g.w, NQ)
-          /\ UNCHANGED <<ph, ri, accRho, accEv, qtab, ref>>
+Extend == /\ gph = "build" /\ Len(gcirc) < MaxLen
+          /\ \E g \in Alphabet : /\ gcirc' = Append(gcirc, g)
+                                 /\ gpsi' = ApplyGate(gpsi, GateM(g), g.w, NQ)
+          /\ UNCHANGED <<gph, gri, accRho, accEv, qtab, gref>>
 
 \* the exact quantities the estimators are supposed to reproduce
-Start == /\ ph = "build" /\ ph' = "avg"
-         /\ ref' = [rho |-> RhoOf(psi), ev |-> TLCEval([w1 \in 1..NW |-> ExpvalOf(psi, WordOf(w1 - 1, NQ), NQ)])]
-         /\ UNCHANGED <<circ, psi, ri, accRho, accEv, qtab>>
+Start == /\ gph = "build" /\ gph' = "avg"
+         /\ gref' = [rho |-> RhoOf(gpsi), ev |-> TLCEval([w1 \in 1..NW |-> ExpvalOf(gpsi, WordOf(w1 - 1, NQ), NQ)])]
+         /\ UNCHANGED <<gcirc, gpsi, gri, accRho, accEv, qtab>>
 
 AddWeighted(acc, q, snaps) ==
   LET S[b1 \in 0..D] == IF b1 = 0 THEN acc ELSE
@@ -62,33 +61,33 @@ AddEst(acc, q, ests) ==
      IN S[D]])
 
 \* one recipe: rotate, read off the 2^NQ Born probabilities, accumulate
-Avg == /\ ph = "avg" /\ ri < NR
-       /\ qtab' = Append(qtab, Bind(RotateOn(psi, AllW, RecOf(ri, NQ), 1, NQ), LAMBDA phi :
+Avg == /\ gph = "avg" /\ gri < NR
+       /\ qtab' = Append(qtab, Bind(RotateOn(gpsi, AllW, RecOf(gri, NQ), 1, NQ), LAMBDA phi :
                                       TLCEval([b1 \in 1..D |-> SNorm(Abs2(phi, b1))])))
-       /\ accRho' = AddWeighted(accRho, qtab'[ri + 1], SnapTab[ri + 1])
-       /\ accEv' = AddEst(accEv, qtab'[ri + 1], EstTab[ri + 1])
-       /\ ri' = ri + 1
-       /\ UNCHANGED <<circ, psi, ph, ref>>
-Finish == /\ ph = "avg" /\ ri = NR /\ ph' = "done"
-          /\ UNCHANGED <<circ, psi, ri, accRho, accEv, qtab, ref>>
+       /\ accRho' = AddWeighted(accRho, qtab'[gri + 1], SnapTab[gri + 1])
+       /\ accEv' = AddEst(accEv, qtab'[gri + 1], EstTab[gri + 1])
+       /\ gri' = gri + 1
+       /\ UNCHANGED <<gcirc, gpsi, gph, gref>>
+Finish == /\ gph = "avg" /\ gri = NR /\ gph' = "done"
+          /\ UNCHANGED <<gcirc, gpsi, gri, accRho, accEv, qtab, gref>>
 
 HamVal(h, ev) == LET S[t \in 0..Len(h)] == IF t = 0 THEN SZero ELSE
                        SAdd(S[t-1], Sc(Scale(h[t].c, ev[h[t].w + 1].c), ev[h[t].w + 1].k + h[t].k))
                  IN S[Len(h)]
-Emit == /\ ph = "done" /\ ph' = "emitted"
-        /\ PrintT(ToJson([kind |-> "case", n |-> NQ, circ |-> circ, psi |-> psi, rho |-> ref.rho, q |-> qtab, ev |-> ref.ev,
-                          hv |-> [h \in 1..Len(Hams) |-> HamVal(Hams[h], ref.ev)]]))
-        /\ (circ = <<>> => PrintT(ToJson([kind |-> "tab", n |-> NQ, snap1 |-> Snap1Tab, snap |-> SnapTab, est |-> EstTab])))
-        /\ UNCHANGED <<circ, psi, ri, accRho, accEv, qtab, ref>>
+Emit == /\ gph = "done" /\ gph' = "emitted"
+        /\ PrintT(ToJson([kind |-> "case", n |-> NQ, circ |-> gcirc, psi |-> gpsi, rho |-> gref.rho, q |-> qtab, ev |-> gref.ev,
+                          hv |-> [h \in 1..Len(Hams) |-> HamVal(Hams[h], gref.ev)]]))
+        /\ (gcirc = <<>> => PrintT(ToJson([kind |-> "tab", n |-> NQ, snap1 |-> Snap1Tab, snap |-> SnapTab, est |-> EstTab])))
+        /\ UNCHANGED <<gcirc, gpsi, gri, accRho, accEv, qtab, gref>>
 Next == Extend \/ Start \/ Avg \/ Finish \/ Emit
 
 \* ---------------------------------------------------------------- the property on the model
-Unbiased == ph = "done" =>
-   /\ EqExact(accRho, MScale(Int2C(NR), ref.rho))
-   /\ \A w1 \in 1..NW : SEq(accEv[w1], SScale(NR, ref.ev[w1]))
+Unbiased == gph = "done" =>
+   /\ EqExact(accRho, MScale(Int2C(NR), gref.rho))
+   /\ \A w1 \in 1..NW : SEq(accEv[w1], SScale(NR, gref.ev[w1]))
 \* sanity of the reference itself: probabilities of every recipe sum to one, rho has unit trace and is Hermitian,
 \* the identity word has expectation one
-RefSane == ph = "done" =>
+RefSane == gph = "done" =>
    /\ \A r1 \in 1..NR : SEq(LET S[b1 \in 0..D] == IF b1 = 0 THEN SZero ELSE SAdd(S[b1-1], qtab[r1][b1]) IN S[D], SOne)
-   /\ SEq(TrM(ref.rho), SOne) /\ IsHermitian(ref.rho) /\ SEq(ref.ev[1], SOne)
+   /\ SEq(TrM(gref.rho), SOne) /\ IsHermitian(gref.rho) /\ SEq(gref.ev[1], SOne)
 =============================================================================
